@@ -12,7 +12,7 @@ git -C /repo worktree remove --force "$wt" >/dev/null 2>&1
 git -C /repo worktree add -q --detach "$wt" HEAD || exit 3
 res="$dir/result.txt"; : > "$res"
 echo "repo_head=$(git -C /repo rev-parse --short HEAD)" >> "$res"
-if ! git -C "$wt" apply "$dir/patch.diff"; then echo "patch_applies=no" >> "$res"; git -C /repo worktree remove --force "$wt"; cat "$res"; exit 3; fi
+if ! { git -C "$wt" apply "$dir/patch.diff" 2>/dev/null || (cd "$wt" && patch -p1 -F3 -s --no-backup-if-mismatch < "$dir/patch.diff"); }; then echo "patch_applies=no" >> "$res"; git -C /repo worktree remove --force "$wt"; cat "$res"; exit 3; fi
 echo "patch_applies=yes" >> "$res"
 t=$(cd "$wt" && cargo test --workspace --no-fail-fast --offline 2>&1)
 passed=$(echo "$t" | grep -E "^test result" | sed -E 's/.* ([0-9]+) passed.*/\1/' | paste -sd+ | bc)
